@@ -1624,6 +1624,16 @@ def _judge13_cli(sc, res, lib_out, lib_kind, out, faults, extra, MPilotError):
                     "CLI let %s propagate instead of reporting it and exiting non-zero [faults: %s]"
                     % (type(exc).__name__, summary))
         return
+    if lib_kind == "mpilot-error" and any(f["kind"] == "csv" and f["op"] in ("nan", "inf", "huge") for f in faults):
+        # With not-a-number cells in the data mpilot's curve commands read cells of a numpy.empty buffer they never
+        # assigned (DESIGN section 7, observations): whether a later command then fails, and with which numbers in its
+        # message, is not a function of the scenario.  The two routes are separate executions, so what the library route
+        # did says nothing about what the command-line run met; it is judged on its own.
+        res.probe("non-finite data: command-line run judged on its own")
+        if kind == "exit" and out["exit_code"] not in (0, None) and not err.strip():
+            res.violate("C13.cli", "C13.cli message-not-on-stderr",
+                        "CLI exit %r with nothing on stderr [faults: %s]" % (out["exit_code"], summary))
+        return
     if lib_kind == "mpilot-error":
         lib_exc = lib_out["exc"]
         if kind == "success" or (kind == "exit" and out["exit_code"] in (0, None)):
